@@ -108,7 +108,7 @@ def run(ctx):
         violations.append({"signature": {"iterator": kind, "stage": stage, "why": why},
                            "what": f"{kind} of a (sub)graph after stage '{stage}' does not enumerate exactly the graph ({why}), {len(items)} cases",
                            "payload": {"input_succ": [list(s) for s in f[0]], "stage": stage, "container": f[2], "yielded": f[4], "count": len(items)}})
-    if mism and not violations:
+    if mism:
         m = mism[0]
         path = common.write_replay("C16", {"property": "C16", "kind": "correspondence-broken",
                                            "correspondence": "Scfg.Model.Iter vs SCFG.__iter__/region_view_iterator",
